@@ -112,16 +112,48 @@ package storage
 //@   requires held(repo.unconfirmedLock)
 //@   ensures released: !held(repo.unconfirmedLock) && result == nil && same(repo.unconfirmed)
 
-//@ func (*TxRepository).save
-//@   trusted
-//@   opt modifies = none
+// Shape of the unconfirmed file as a token list: a version byte, then per record the 32 txid
+// bytes, the time as int64 and three single flag bytes; nothing after the last record.
+//@ spec slotOK(k, l, q) = ite((q - 1) % 5 == 0, k == 3 && l == 32, ite((q - 1) % 5 == 1, k == fixedkind(int64), k == 3 && l == 1))
+//@ spec fileOK(b) = blobntok(b) >= 1 && (blobntok(b) - 1) % 5 == 0 && tokkindb(b, 0) == fixedkind(uint8) && !blobtail(b)
+//@     && forall(q, 1, blobntok(b), slotOK(tokkindb(b, q), bloblen(tokvalb(b, q)), q))
+//@ spec streamOK(w, n) = forall(q, 1, n, slotOK(tokkind(w, q), bloblen(tokval(w, q)), q))
+
+// A clean stop persists the set: Save always rewrites (or removes) the unconfirmed file.
+// (the log line before the lock reads len(repo.unconfirmed) unlocked: outside the monitor rule)
+//@ func (*TxRepository).Save
 //@   serves C11
+//@   opt nomonitor = 1
+//@   opt track = save
+//@   requires repo != nil && flagBytesOK()
+//@   ensures persists: [C11] ncalls(save) == 1
 //@   ensures frame: same(repo.unconfirmed) && uSame(repo) && forall(x *unconfirmedTx, cellSame(x))
+//@   ensures removed_when_empty: [C11] result == nil && len(repo.unconfirmed) == 0 ==> !sthas(unconfirmedPath)
+//@   ensures written: [C11] result == nil && len(repo.unconfirmed) != 0 ==> sthas(unconfirmedPath) && (blobntok(stblob(unconfirmedPath)) - 1) % 5 == 0
+
+// save: the unconfirmed file is removed when the set is empty, otherwise rewritten as one version
+// token followed by one five-token record per entry of the set, each written from a (txid, entry)
+// pair of the map; the set itself is not touched.
+//@ func (*TxRepository).save
+//@   serves C11
+//@   opt nomonitor = 1
+//@   requires repo != nil && flagBytesOK()
+//@   loop 0 invariant ntok(writer) == 1 + 5 * nvisited() && rpos(writer) == 0 && nvisited() >= 0 && writer != nil && flagBytesOK()
+//@   loop 0 invariant tokkind(writer, 0) == fixedkind(uint8) && tokval(writer, 0) == 0
+//@   loop 0 invariant streamOK(writer, ntok(writer))
+//@   loop 0 invariant same(repo.unconfirmed) && uSame(repo) && forall(x *unconfirmedTx, cellSame(x)) && stsame()
+//@   assert record_of_entry at call unconfirmedTx.Write : [C11] has(repo.unconfirmed, hash) && tx == repo.unconfirmed[hash]
+//@   ensures frame: same(repo.unconfirmed) && uSame(repo) && forall(x *unconfirmedTx, cellSame(x))
+//@   ensures removed_when_empty: [C11] result == nil && len(repo.unconfirmed) == 0 ==> !sthas(unconfirmedPath)
+//@   ensures written: [C11] result == nil && len(repo.unconfirmed) != 0 ==> sthas(unconfirmedPath) && (blobntok(stblob(unconfirmedPath)) - 1) % 5 == 0
+//@        && tokkindb(stblob(unconfirmedPath), 0) == fixedkind(uint8) && tokvalb(stblob(unconfirmedPath), 0) == 0
+//@   ensures well_formed: [C11] result == nil && len(repo.unconfirmed) != 0 ==> fileOK(stblob(unconfirmedPath))
+//@   ensures failed_keeps_file: [C11] result != nil ==> stsame()
 
 //@ func (*TxRepository).FinalizeUnconfirmed
 //@   serves C03 C07 C11
 //@   opt returns_locked = 1
-//@   requires InvU(repo) && held(repo.unconfirmedLock)
+//@   requires InvU(repo) && held(repo.unconfirmedLock) && flagBytesOK()
 //@   ensures released: !held(repo.unconfirmedLock)
 //@   ensures {nf} only_listed: forall(t bitcoin.Hash32, has(repo.unconfirmed, t) ==> exists(c, 0, len(unconfirmed), unconfirmed[c] == t))
 //@   ensures {rep} all_listed: forall(c, 0, len(unconfirmed), has(repo.unconfirmed, unconfirmed[c]))
@@ -175,14 +207,52 @@ package storage
 
 //@ func readUnconfirmedTx
 //@   serves C20 C11
+//@   inline
 //@   safety index nil alloc allocbound
 //@   opt nomonitor = 1
 
+// The two package-level flag encodings hold one byte each, zero for false and non-zero for true
+// (their initial values; nothing in the package assigns them).
+//@ spec flagBytesOK() = len(FalseData) == 1 && len(TrueData) == 1 && FalseData[0] == 0 && TrueData[0] != 0
+
+// One record of the unconfirmed file: txid bytes, first-seen time in milliseconds, three flag bytes.
+//@ func (*unconfirmedTx).Write
+//@   serves C11
+//@   inline
+
+// Writing a record and reading it back yields the same txid, the same three flags and the
+// first-seen time truncated to the millisecond, and consumes exactly the five tokens written.
+//@ func verifRoundTripUnconfirmed
+//@   serves C11
+//@   opt writes_succeed = 1
+//@   opt partial = 1
+//@   opt nomonitor = 1
+//@   requires tx != nil && txid != nil && flagBytesOK()
+//@   ensures ok: [C11] result3 == nil
+//@   ensures same_id: [C11] result0 == *txid
+//@   ensures same_flags: [C11] result1 != nil && result1.safe == tx.safe && result1.unsafe == tx.unsafe && result1.trusted == tx.trusted
+//@   ensures time_ms: [C11] UnixNano(result1.time) == (UnixNano(tx.time) / 1000000) * 1000000
+//@   ensures framing: [C11] rpos(result2) == ntok(result2) && ntok(result2) == 5
+
+// Load starts from an empty set (nothing of the previous in-memory set survives), reads the
+// version and then records until the end of the file. On a well-formed file (what save writes:
+// fileOK) every read is a whole token, no record is cut short (the loop is only left at the end of
+// the file, never by a decoding error) and every record was consumed; an absent file yields the
+// empty set.
 //@ func (*TxRepository).Load
-//@   serves C20
+//@   serves C20 C11
 //@   safety index nil alloc allocbound
 //@   opt nomonitor = 1
-//@   loop 0 invariant true
+//@   requires repo != nil
+//@   requires {wf} sthas(unconfirmedPath) ==> fileOK(stblob(unconfirmedPath))
+//@   loop 0 invariant repo.unconfirmed != nil && fresh(repo.unconfirmed)
+//@   loop 0 invariant forall(k bitcoin.Hash32, has(repo.unconfirmed, k) ==> repo.unconfirmed[k] != nil && fresh(repo.unconfirmed[k]))
+//@   loop 0 invariant {wf} reader != nil && 1 <= rpos(reader) && rpos(reader) <= ntok(reader) && (rpos(reader) - 1) % 5 == 0 && (ntok(reader) - 1) % 5 == 0
+//@   loop 0 invariant {wf} streamOK(reader, ntok(reader))
+//@   assert consumed at afterloop 0 : [C11] {wf} err == io.EOF ==> rpos(reader) == ntok(reader)
+//@   assert whole_records at afterloop 0 : [C11] {wf} err == nil || err == io.EOF
+//@   ensures rebuilt: [C11] repo.unconfirmed != nil && fresh(repo.unconfirmed) && forall(k bitcoin.Hash32, has(repo.unconfirmed, k) ==> fresh(repo.unconfirmed[k]))
+//@   ensures absent_is_empty: [C11] result == nil && !old(sthas(unconfirmedPath)) ==> forall(k bitcoin.Hash32, !has(repo.unconfirmed, k))
 
 //@ func (*TxRepository).readBlock
 //@   serves C20
